@@ -90,7 +90,10 @@ type Known struct {
 	What      string `json:"what"`
 	Replay    string `json:"replay,omitempty"`
 	Commit    string `json:"commit,omitempty"`
-	re        *regexp.Regexp
+	// Exclude lists generator shapes that are steered away from this finding by construction so that the
+	// search continues behind it (the excluded cases are counted in the evidence)
+	Exclude []string `json:"exclude,omitempty"`
+	re      *regexp.Regexp
 }
 
 // LoadKnown reads the known-findings file (missing file = none).
@@ -212,6 +215,18 @@ func (r *Recorder) ClassN(name string, n int64) { r.mu.Lock(); r.classes[name] +
 
 // Excluded counts a case steered away from a known finding.
 func (r *Recorder) Excluded(sig string) { r.mu.Lock(); r.excluded[sig]++; r.mu.Unlock() }
+
+// Excluding reports whether a listed known finding of this property asks generators to avoid the shape.
+func (r *Recorder) Excluding(token string) bool {
+	for i := range r.known {
+		for _, e := range r.known[i].Exclude {
+			if e == token {
+				return true
+			}
+		}
+	}
+	return false
+}
 
 // Extra sets a free-form coverage key.
 func (r *Recorder) Extra(k string, v any) { r.mu.Lock(); r.extra[k] = v; r.mu.Unlock() }
